@@ -259,7 +259,9 @@ CLAIMED = {
                      'overlap, non-finite pixels kept); the total mask is "weight 0 or masked or '
                      'non-finite", weights / weighted data / variances are the aperture weight '
                      'times the value there and 0 elsewhere (error maps of any dtype squared in '
-                     'float); ApertureStats getters are pure and the per-aperture loop has no '
+                     'float); the sum-method masks are the aperture\'s masks for the configured sum_method '
+                     'and subpixels (the centre masks its \'center\' masks), a scalar aperture\'s mask '
+                     'wrapped in a 1-tuple; ApertureStats getters are pure and the per-aperture loop has no '
                      'loop-carried state. Every statistic is checked bounded against pixel-loop '
                      'oracles incl. tiny, off-image and fully masked apertures.',
                 note='statistics bounded only'),
